@@ -61,6 +61,11 @@ func (n *Nonce) DecodeMsgpack(d *msgpack.Decoder) error {
 		return err
 	}
 
+	// start from the zero value: the receiver may have been decoded into
+	// before (a map-encoded token can name the Nonce field twice), and a
+	// two-field nonce must not keep the Proof flag of an earlier one
+	*n = Nonce{}
+
 	switch nFields {
 	case 2:
 		n.version = nonceV0
